@@ -1082,6 +1082,9 @@ func ParseExecBlock(p *ParserZH, mainIndent int) *syntax.ExecBlock {
 			p.unsetStmtCompleteFlag()
 			if match, _ := p.tryConsume(TypeCatchErrorW); match {
 				execBlock.CatchBlock = append(execBlock.CatchBlock, ParseCatchErrorStmt(p))
+			} else {
+				// only 拦截 blocks may follow a 拦截 block; anything else would never be consumed
+				panic(p.getInvalidSyntaxPeek())
 			}
 		}
 	})
